@@ -1676,6 +1676,18 @@ def witness_case(op, kind, cat):
     return None
 
 
+def bare_witness_case(op, cat):
+    """the option of a wrapper witness on its own (same declaration, same value, no wrapper around it): what the option
+    does by itself, to compare the wrapper's behaviour with"""
+    d, v, doc = item_witness(cat)
+    cls = _cls(f"W_bare_{cat}", [["f", copy.deepcopy(d)]])
+    base = {"suite": "alias", "cls": cls, "pokeLimit": 120}
+    kw = [["f", v]]
+    return {"construct": dict(base, op=op, kw=kw), "setattr": dict(base, op=op, kw=kw, field="f", value=v),
+            "deserialize": dict(base, op=op, doc={"m": [["f", doc]]}), "serialize": dict(base, op=op, kw=kw, via="Serializer"),
+            "fieldSerialize": dict(base, op=op, kw=kw, field="f"), "fastSerialize": dict(base, op=op, kw=kw)}.get(op)
+
+
 def directed_cases():
     """one case per table site and operation (the witnesses the extractor probes), plus sharing inside arguments"""
     out = []
